@@ -11,7 +11,7 @@ Ltac Zify.zify_post_hook ::= Z.div_mod_to_equations.
 (* ---------- block entities ---------- *)
 Definition nbt_ok (b : bent) : Prop :=
   (e_nt b = 0 /\ e_data b = []) \/
-  (exists t, C01.wf t /\ e_nt b = C01.tag_id t /\ e_data b = C01.payload t).
+  (exists t, C01.wf t /\ Proofs.C01_dec.nest_ok t /\ e_nt b = C01.tag_id t /\ e_data b = C01.payload t).
 Definition bent_ok (b : bent) : Prop :=
   (-128 <= e_xz b < 128)%Z /\ (-32768 <= e_y b < 32768)%Z /\ (-2^31 <= e_type b < 2^31)%Z /\ nbt_ok b.
 
@@ -30,7 +30,7 @@ Qed.
 Lemma raw_body_rt b old fuel rest : nbt_ok b -> (length (e_data b) < fuel)%nat ->
   run_flat (raw_body fuel old) (raw_img b ++ rest) = FOk (e_nt b, e_data b) rest.
 Proof.
-  intros [[Hn Hd]|(t & W & Hn & Hd)] Hf; unfold raw_img, raw_body.
+  intros [[Hn Hd]|(t & W & Hnest & Hn & Hd)] Hf; unfold raw_img, raw_body.
   - rewrite Hn, Hd. reflexivity.
   - pose proof (tag_id_range t) as R. rewrite Hn.
     rewrite (N.mod_small (C01.tag_id t) 256) by lia.
@@ -40,7 +40,7 @@ Proof.
     rewrite run_flat_bind by (apply tee_robust, dec_skip_robust).
     rewrite Hd in Hf |- *.
     destruct (Proofs.C01_more.tee_spec _ (dec_skip_robust fuel (C01.tag_id t)) _ _ _
-                (Proofs.C01_more.dec_skip_conforms t W fuel rest Hf)) as (c & Hc & Ht).
+                (Proofs.C01_more.dec_skip_conforms t W Hnest fuel rest Hf)) as (c & Hc & Ht).
     apply app_inv_tail in Hc. subst c. rewrite Ht. reflexivity.
 Qed.
 
@@ -330,7 +330,7 @@ Proof.
   rewrite Nmb. cbn [bind]. rewrite Nws. cbn [bind].
   (* the sections *)
   cbn [bytes_of fst].
-  unfold chunk_data. rewrite Rs.
+  unfold chunk_data. rewrite run_fast_eq. rewrite Rs.
   cbn [run_flat]. split.
   - rewrite !lenN_app, !N.add_assoc. unfold ihm. reflexivity.
   - cbn [c_secs c_hm c_bes c_status hMB hWS hWSWG hOFWG hOF hMBNL list_of fst].
